@@ -23,6 +23,8 @@ type clusterSource struct {
 	opts          *Opts
 	query         *sql.Query
 	planAsIfLocal core.Source
+	// partitionSQL, if set, is sent to the partitions instead of query.SQL
+	partitionSQL string
 }
 
 func (cs *clusterSource) doIterate(ctx context.Context, unflat bool, onFields core.OnFields, onRow core.OnRow, onFlatRow core.OnFlatRow) (interface{}, error) {
@@ -40,7 +42,11 @@ func (cs *clusterSource) doIterate(ctx context.Context, unflat bool, onFields co
 		}
 	}
 
-	return cs.opts.QueryCluster(ctx, cs.query.SQL, cs.opts.IsSubQuery, subQueryResults, unflat, onFields, onRow, onFlatRow)
+	sqlString := cs.query.SQL
+	if cs.partitionSQL != "" {
+		sqlString = cs.partitionSQL
+	}
+	return cs.opts.QueryCluster(ctx, sqlString, cs.opts.IsSubQuery, subQueryResults, unflat, onFields, onRow, onFlatRow)
 }
 
 func (cs *clusterSource) GetGroupBy() []core.GroupBy {
@@ -260,6 +266,25 @@ func planClusterPushdown(opts *Opts, query *sql.Query) (core.FlatRowSource, erro
 			query:         query,
 			planAsIfLocal: pail,
 		},
+	}
+
+	if query.Offset > 0 {
+		// The leader applies the offset to the merged result, so the partitions
+		// must not skip any rows themselves: each one supplies its first
+		// offset+limit rows.
+		lowerSQL := strings.ToLower(query.SQL)
+		indexOfLimit := -1
+		for from := 0; from < len(lowerSQL); {
+			idx := indexOfClause(lowerSQL[from:], "limit ")
+			if idx < 0 {
+				break
+			}
+			indexOfLimit = from + idx
+			from = indexOfLimit + 1
+		}
+		if indexOfLimit > 0 {
+			flat.partitionSQL = fmt.Sprintf("%vlimit %d", query.SQL[:indexOfLimit], query.Offset+query.Limit)
+		}
 	}
 
 	return addOrderLimitOffset(flat, query), nil
